@@ -64,6 +64,7 @@ type MCConfig struct {
 	NonTrivial    func(m *ref.Result) bool
 	Sig           func(g *gast.Grammar, in []byte, m *ref.Result, field string) []string
 	Chunk         int
+	ReverseRules  bool // every second generated grammar has its rules after the first in reverse order
 	ExtraInputs   func(g *gast.Grammar, r *rand.Rand) [][]byte
 	KeepGrammar   func(g *gast.Grammar) bool
 	// StalePS: pigeon leaves c.pos / c.text stale in predicate and state blocks (known finding
@@ -102,6 +103,13 @@ func (c *Ctx) ModelCheck(cfg *MCConfig) {
 		if cfg.KeepGrammar != nil && !cfg.KeepGrammar(g) {
 			i--
 			continue
+		}
+		if cfg.ReverseRules && i%2 == 1 && len(g.Rules) > 2 {
+			// the same grammar with the rules after the first written in the opposite order (rules that
+			// are referenced now stand before the rules that reference them)
+			for a, b := 1, len(g.Rules)-1; a < b; a, b = a+1, b-1 {
+				g.Rules[a], g.Rules[b] = g.Rules[b], g.Rules[a]
+			}
 		}
 		all = append(all, g)
 	}
